@@ -837,9 +837,137 @@ def run_c09(ctx):
                           "b": {"dtype": dt, "shape": [2], "vals": [0, k + 1]},
                           "rel": ["num", tol], "abs": ["num", tol], "meta": {"mode": "c09_edges"}})
     run_exact_stream(ctx, cases, "c09")
+    shared_predicate_stream(ctx, cases, "c09")
+    mesh_integer_stream(ctx, 150 if q else 4000)
     ctx.rule = ("integer (8 dtypes, extremes), string and int/float-mixed arrays, shapes as C01, a differing entry at "
                 "first/last/random position, tolerances in {default, 0, 2^-10, 1, 1000, 2^900, 1024*max}; "
                 "non-trivial = arrays differ in a value, a dtype or shape")
+
+
+def shared_predicate_stream(ctx, cases, label):
+    """One DefaultEquality object per tolerance setting, used for a whole sequence of fields (float fields first, then
+    integer and string fields) the way FieldDataComparator uses the object a predicate selector hands out: every verdict
+    must still be the statement's."""
+    from fieldcompare import predicates as P
+
+    groups = {}
+    for c in cases:
+        if c["pred"] != "default" or "comp" in (c["rel"][0], c["abs"][0]):
+            continue
+        groups.setdefault(json.dumps([c["rel"], c["abs"]], default=str), []).append(c)
+    n_seq = 0
+    for key, cs in groups.items():
+        floats_first = sorted(cs, key=lambda c: 0 if (c["a"]["dtype"] in FLOAT_DT or c["b"]["dtype"] in FLOAT_DT) else 1)
+        for start in range(0, len(floats_first), 40):
+            chunk = floats_first[:3] + floats_first[start:start + 40]     # a few float fields, then the chunk
+            kw = {}
+            r, t = py_tol(chunk[0]["rel"], ()), py_tol(chunk[0]["abs"], ())
+            if r is not None:
+                kw["rel_tol"] = r
+            if t is not None:
+                kw["abs_tol"] = t
+            obj = P.DefaultEquality(**kw)
+            n_seq += 1
+            for c in chunk:
+                want = oracle(c)
+                if want is None:
+                    continue
+                got = impl_eval(c, pred_obj=obj)
+                ctx.tie("T2 one predicate object over a sequence of fields = statement")
+                if got != want:
+                    ctx.violation("E4", f"{label}: a predicate object used for several fields in a row gives {got}, the statement {want}",
+                                  {k: c[k] for k in ("pred", "a", "b", "rel", "abs")}, sequence_head=[x["a"]["dtype"] for x in chunk[:3]])
+                    break
+    ctx.count(f"{label}:shared predicate sequences", n_seq)
+
+
+def mesh_integer_stream(ctx, n):
+    """Integer point / cell fields (scalars and vectors) on meshes, compared through MeshFieldsComparator with large
+    tolerances, the reference stored relabeled and / or with zero-padded third coordinate and vector components: a field
+    passes iff its integers are identical (the views and the dimension matching must not turn integers into floats)."""
+    import copy
+    import warnings
+    import numpy as np
+    from fieldcompare.mesh import MeshFieldsComparator
+    from fieldcompare import predicates as P
+    from . import meshgen as G
+
+    rng = ctx.rng
+    for it in range(n):
+        M = None
+        while M is None or G.has_coincident_points(M):
+            M = G.gen_mesh(rng, max_cells=4)
+        npts, d = len(M["pts"]), M["dim"]
+        big = rng.random() < 0.3
+        ival = (lambda: rng.choice([2 ** 53 + 1, -(2 ** 53) - 3, 2 ** 62 + 5])) if big else (lambda: rng.randint(-50, 50))
+        M["pf"]["id"] = [ival() for _ in range(npts)]
+        if d >= 2:
+            M["pf"]["iv"] = [[ival() for _ in range(d)] for _ in range(npts)]
+        M["cf"]["cid"] = {t: [ival() for _ in rows] for t, rows in M["blocks"]}
+        if d >= 2:
+            M["cf"]["civ"] = {t: [[ival() for _ in range(d)] for _ in rows] for t, rows in M["blocks"]}
+        R = copy.deepcopy(M)
+        changed = None
+        if rng.random() < 0.6:
+            name = rng.choice(sorted(R["pf"]) + sorted(R["cf"]))
+            if name in R["pf"]:
+                rows = R["pf"][name]
+                owner = name
+            else:
+                t = rng.choice(sorted(R["cf"][name]))
+                rows = R["cf"][name][t]
+                owner = f"{name} @ {t}"
+            i = rng.randrange(len(rows))
+            if isinstance(rows[i], list):
+                rows[i][rng.randrange(len(rows[i]))] += rng.choice([-1, 1])
+            else:
+                rows[i] += rng.choice([-1, 1])
+            changed = owner
+        layout = rng.choice(["same", "relabeled", "padded", "padded+relabeled"]) if d < 3 else rng.choice(["same", "relabeled"])
+        if "padded" in layout:
+            R["dim"] = 3
+            R["pts"] = [p + [Fr(0)] * (3 - d) for p in R["pts"]]
+            for nm in ("iv",):
+                if nm in R["pf"]:
+                    R["pf"][nm] = [r + [0] * (3 - d) for r in R["pf"][nm]]
+            if "civ" in R["cf"]:
+                R["cf"]["civ"] = {t: [r + [0] * (3 - d) for r in rows] for t, rows in R["cf"]["civ"].items()}
+        if "relabeled" in layout:
+            R = G.relabel(rng, R)[0]
+        role = rng.choice(["low_is_source", "low_is_reference"])
+        A, B = (M, R) if role == "low_is_source" else (R, M)
+        tol = rng.choice([1.0, 1000.0, 2.0 ** 40])
+        canon = {"mesh": json.loads(json.dumps({k: v for k, v in M.items() if not k.startswith("_")}, default=str)),
+                 "layout": layout, "changed": changed, "role": role, "tol": tol, "big": big}
+        try:
+            with warnings.catch_warnings():
+                warnings.simplefilter("ignore")
+
+                def to_fc(X):
+                    f = G.to_fieldcompare(X)
+                    return f
+                suite = MeshFieldsComparator(to_fc(A), to_fc(B))(
+                    predicate_selector=lambda s_, r_: P.DefaultEquality(rel_tol=tol, abs_tol=tol),
+                    fieldcomp_callback=lambda c: None, reordering_callback=lambda m: None)
+            res = {c.name: c.status.name for c in suite}
+            dom = bool(suite.domain_equality_check)
+        except Exception as e:  # noqa: BLE001
+            ctx.case(canon, True)
+            ctx.violation("E4", f"c09 mesh stream: comparison raised {type(e).__name__}: {e}", canon)
+            continue
+        ctx.case(canon, True, sample={"layout": layout, "changed": changed, "role": role, "tol": tol, "result": res})
+        ctx.count(f"c09mesh:{layout}:{'changed' if changed else 'identical'}")
+        ctx.tie("T2 integer mesh fields through MeshFieldsComparator = statement")
+        if not dom:
+            ctx.violation("E4", "c09 mesh stream: equal meshes do not pass the domain check", canon, impl=res)
+            continue
+        for name, st in res.items():
+            want = "failed" if name == changed else "passed"
+            if st != want:
+                ctx.violation("E4", f"c09 mesh stream: integer field '{name}' is reported {st}, the statement requires {want} "
+                                    f"(tolerance {tol}, reference stored {layout})", canon, impl=res)
+                break
+        ctx.traces_validated += 1
 
 
 def c10_variants(c):
